@@ -143,6 +143,12 @@ func (lb *WeightedRandomLoadBalancer) ChooseServer(req *httpprot.Request) *Serve
 		return nil
 	}
 
+	// all servers have a zero weight (accepted by the spec validation and
+	// possible with servers from service discovery), choose one randomly.
+	if lb.totalWeight <= 0 {
+		return lb.Servers[rand.Intn(len(lb.Servers))]
+	}
+
 	randomWeight := rand.Intn(lb.totalWeight)
 	for _, server := range lb.Servers {
 		randomWeight -= server.Weight
